@@ -229,6 +229,11 @@ func (p *parser) finishParsingBodyAttribute(ident Token, singleLine bool) (Node,
         // landed somewhere weird. We'll try to reset to the start of a body
         // item so parsing can continue.
         endRange = p.PrevRange()
+        if exprRange := expr.Range(); exprRange.End.Byte > endRange.End.Byte {
+            // the placeholder for an invalid expression sits on the token that could
+            // not be parsed, which has not been consumed
+            endRange = exprRange
+        }
         p.recoverAfterBodyItem()
     } else {
         endRange = p.PrevRange()
@@ -1133,7 +1138,7 @@ Token:
             // if there was a parse error in the argument then we've
             // probably been left in a weird place in the token stream,
             // so we'll bail out with a partial argument list.
-            p.recover(TokenCParen)
+            closeTok = p.recover(TokenCParen)
             break Token
         }
 
